@@ -104,10 +104,21 @@ def admits_number(tok):
     return all(_isdig(c) for c in tok[i:])
 
 
+def _bare_0b_is_a_token():
+    """whether the grammar's BIN_NUMBER admits the bare prefix `0b` (it did: `"0b" ["0"|"1"]+`; since the fix it requires a digit)"""
+    import re as _re
+    for t in nmfu.parser.terminals:
+        if t.name == 'RADIX_NUMBER':
+            return _re.fullmatch(t.pattern.to_regexp(), '0b') is not None
+    return False
+
+
+BARE_0B_OK = _bare_0b_is_a_token()
+
+
 def admits_radix(tok):
     if tok[0:2] == '0b':
-        # `"0b" ["0"|"1"]+` : one or more OPTIONAL binary digits, i.e. the bare prefix "0b" is a token too
-        return all(c == '0' or c == '1' for c in tok[2:])
+        return (len(tok) >= 3 or BARE_0B_OK) and all(c == '0' or c == '1' for c in tok[2:])
     i = 0
     if len(tok) > 0 and (tok[0] == '+' or tok[0] == '-'):
         i = 1
@@ -411,8 +422,25 @@ def _width_outcome(w, signed):
     return None
 
 
+def _front_end_validates_width():
+    """since the fix, _parse_out_decl rejects sizes other than 1, 2, 4, 8 with a diagnosed error, so only those reach
+    _integer_containing; detected from the real front end (the decl-level harness below checks the rejection itself)"""
+    try:
+        _pctx._parse_out_decl(_int_decl_tree('3', True, True))
+    except nmfu.NMFUError:
+        return True
+    except Exception:
+        return False
+    return False
+
+
+def reaches_codegen(w):
+    return (not WIDTH_VALIDATED) or w == 1 or w == 2 or w == 4 or w == 8
+
+
 def int_width(w: int, signed: bool) -> bool:
     """
+    pre: reaches_codegen(w)
     post: _
     """
     return _width_outcome(w, signed) is None
@@ -420,6 +448,7 @@ def int_width(w: int, signed: bool) -> bool:
 
 def int_width__reach(w: int, signed: bool) -> bool:
     """
+    pre: reaches_codegen(w)
     post: not _
     """
     return w == 8 and not signed
@@ -764,6 +793,9 @@ def casei_total__explain(c):
         return {'token': repr(chr(c)), 'outcome': repr(r)}
     except Exception as e:
         return {'token': repr(chr(c)), 'exc': type(e).__name__, 'observed': str(e)}
+
+
+WIDTH_VALIDATED = _front_end_validates_width()
 
 
 HARNESSES = {
